@@ -25,7 +25,8 @@ CLAIMED = {
              "XML members of default.pptx validate with the same automata (the valid starting point); (R3.4) raw attribute "
              "writes are constant and valid; (R3.5a) no validity-relevant mutation precedes an explicit refusal on any path "
              "(statement-level may-precede analysis over typed effect summaries); (R3.5b) no element that is invalid as created "
-             "is attached before a completing store that can reject its value, nor left incomplete. Child positions of later "
+             "is attached before a completing store that can reject its value, nor left incomplete; (R3.7) an element emptied of a child its "
+             "schema type requires gets one back on every path to the end of the function. Child positions of later "
              "insertions are C10, value spaces C11, chart templates C07. 14 genuine refusal-path defects are carried as known "
              "findings. NOT decided: validity under arbitrary operation histories (cardinality).",
         technique="static analysis: abstract string evaluation -> XML skeleton -> regular-language inclusion in XSD content-model "
@@ -86,7 +87,7 @@ CLAIMED = {
              "the rest are counted as not analysed; (R9.2) convert_to_xml and convert_from_xml of every simple type, Adjustment "
              "normalisation included, are evaluated to affine forms and must be reciprocal (rounding mode = quantum recorded); "
              "(R9.3) an OptionalAttribute's declared default equals the schema default whenever the schema declares one, compared "
-             "through value interpretation; (R9.4) refusals in setters and their helpers raise TypeError/ValueError. Also R9.5: presence is not decided by truthiness in value-selecting expressions unless the tested value is boolean, its falsy value equals the fall-back, or it is an object without __len__/__bool__ (unknown types are refused). NOT decided: "
+             "through value interpretation; (R9.4) refusals in setters and their helpers raise TypeError/ValueError. Also R9.5: presence is not decided by truthiness in value-selecting expressions unless the tested value is boolean, its falsy value equals the fall-back, or it is an object without __len__/__bool__ (unknown types are refused); R9.6: a relationship is re-used only on a path that compared the unmodified stored target with the requested one by plain equality. NOT decided: "
              "persistence across save/re-open, independence of sibling properties, placeholder inheritance.",
         technique="static analysis: typed delegation-chain resolution of getter/setter XML locations, affine evaluation of "
                   "conversion functions, table comparison of declared vs schema defaults",
@@ -109,13 +110,15 @@ CLAIMED = {
     ),
     "C11": dict(
         level="other",
-        text="All 117 attribute declarations are paired by use with their schema attributes (existence, requiredness); for each "
+        text="All 117 attribute declarations are paired by use with their schema attributes (existence, requiredness in both "
+             "directions: a schema-required attribute is not declared optional); for each "
              "of the 43 simple-type classes the accepted set is computed by abstract interpretation of validate() (kinds, closed/"
              "open rational intervals), pushed through convert_to_xml (scale, rounding mode, modulus and their order, branch "
              "splits) and compared with the facet interval / enumeration / boolean lexical set of every paired schema simple "
              "type - this is where measure-zero failures (360.0-epsilon rounding up to 21600000, -360.0) are visible; "
              "convert_from_xml is abstractly evaluated on one representative lexeme per lexical alternative of the schema type "
-             "(derived from union members and pattern facets) and every enumeration token must map to a member; validate-before-"
+             "(derived from union members and pattern facets) and every enumeration token must map to a member; the factor applied to a "
+             "percent literal agrees with the factor of the integer form of the same union type; validate-before-"
              "convert order and exception classes are checked structurally. Eight genuine disagreements are carried as known "
              "findings. NOT decided: exact float rounding at individual values; string pattern facets.",
         technique="static analysis: abstract interpretation (interval + kind + lexeme-shape domains) of the simple-type classes "
@@ -268,13 +271,14 @@ CLAIMED = {
              "inserts a shape element (and FreeformBuilder.convert_to_shape) is post-dominated on all paths by an extent "
              "recalculation, following self-calls whose every path recalculates (resolved in the concrete group class); (R17.2) "
              "the collection hook delegates to the group element, and CT_GroupShape.recalculate_extents has no early exit "
-             "other than the not-a-group guard, assigns x/y/cx/cy and chOff/chExt from _child_extents and ends in the "
-             "unconditional upward recursion; (R17.3) the freeform offsets and extents range over every coordinate-bearing "
+             "other than the not-a-group guard, assigns x/y/cx/cy and chOff/chExt from the matching components of _child_extents "
+             "(tuple or record) and ends in the unconditional upward recursion, and _child_extents is (min x, min y, max(x+cx) - "
+             "min x, max(y+cy) - min y) over all member shapes, compared symbolically; (R17.3) the freeform offsets and extents range over every coordinate-bearing "
              "drawing operation and the start point; (R17.4) for each of the four connector end-point setters every path is "
              "evaluated in polynomial normal form (comparisons become facts, abs() is resolved by a fact that states the sign - "
              "no solver) and must give: moved end-point == assigned value, other end-point unchanged, extent stated "
-             "non-negative by the path condition; the end-point formulas are read from the getters. NOT decided: min/max "
-             "arithmetic of the child extents, freeform scaling and rounding.",
+             "non-negative by the path condition; the end-point formulas are read from the getters. NOT decided: recursion "
+             "depth / histories of additions at run time, freeform scaling and rounding.",
         technique="static analysis: statement-level must-follow (post-dominance) with interprocedural must-summaries, structural "
                   "shape rules, population agreement between sibling properties, path-sensitive abstract evaluation in a "
                   "polynomial normal-form domain with syntactic entailment",
